@@ -116,6 +116,7 @@ class RTCRtpSender:
         self.__rtx_payload_type: Optional[int] = None
         self.__rtx_sequence_number = random_sequence_number()
         self.__started = False
+        self.__stopped = False
         self.__stats = RTCStatsReport()
         self.__transport = transport
 
@@ -207,7 +208,7 @@ class RTCRtpSender:
 
         :param parameters: The :class:`RTCRtpSendParameters` for the sender.
         """
-        if not self.__started:
+        if not self.__started and not self.__stopped:
             self.__cname = parameters.rtcp.cname
             self.__mid = parameters.muxId
 
@@ -240,6 +241,7 @@ class RTCRtpSender:
             self.__rtp_task.cancel()
             self.__rtcp_task.cancel()
             await asyncio.gather(self.__rtp_exited.wait(), self.__rtcp_exited.wait())
+        self.__stopped = True
 
     async def _handle_rtcp_packet(self, packet: AnyRtcpPacket) -> None:
         if isinstance(packet, (RtcpRrPacket, RtcpSrPacket)):
